@@ -61,6 +61,38 @@ def is_tup(t):
     return isinstance(t, tuple) and t[0] == "tup"
 
 
+def TD(t):
+    return ("ddict", t)
+
+
+def is_ddict(t):
+    return isinstance(t, tuple) and t[0] == "ddict"
+
+
+def unify(a, b):
+    """most specific common type; None (inside a type) = not yet known (an empty list display); raises ValueError"""
+    if a is None:
+        return b
+    if b is None:
+        return a
+    if isinstance(a, tuple) and isinstance(b, tuple) and a[0] == b[0]:
+        if a[0] in ("list", "ddict"):
+            return (a[0], unify(a[1], b[1]))
+        if a[0] == "tup" and len(a[1]) == len(b[1]):
+            return ("tup", tuple(unify(x, y) for x, y in zip(a[1], b[1])))
+    if a == b:
+        return a
+    raise ValueError((a, b))
+
+
+def same_type(a, b):
+    try:
+        unify(a, b)
+        return True
+    except ValueError:
+        return False
+
+
 class Refuse(Exception):
     def __init__(self, node, why):
         self.node = type(node).__name__ if not isinstance(node, str) else node
@@ -73,9 +105,11 @@ def refuse(node, why):
     raise Refuse(node, why)
 
 
-def coqtype(t):
+def coqtype(t, rep="c05"):
     if t == IND:
-        return "ind (V o)"
+        return "ind (V o)" if rep == "c05" else "C04_NDSort.ind"
+    if t == FIT:
+        return "C04_NDSort.wvals"
     if t in (V, VF):
         return "V o"
     if t == D:
@@ -91,9 +125,9 @@ def coqtype(t):
     if t == ND:
         return "nd_choice"
     if is_list(t):
-        return "list (%s)" % coqtype(t[1])
+        return "list (%s)" % coqtype(t[1], rep)
     if is_tup(t):
-        return " * ".join("(%s)" % coqtype(x) for x in t[1])
+        return " * ".join("(%s)" % coqtype(x, rep) for x in t[1])
     raise Refuse("Module", "type %r has no Coq counterpart" % (t,))
 
 
@@ -114,18 +148,23 @@ def tup(vs):
 # ---- signature table (trusted) ---------------------------------------------------------------------------
 # name, parameters (python name, type), defaults {name: constant}, result type, placeholder (hand model)
 SORTER = ([TL(IND), INT], TL(TL(IND)))
+# + representation of an individual ("c05": record with fitness.values, "c04": (uid, wvalues) as in property C04's
+#   model of the sorters), fuel of a `while` (a python expression over the locals, or None)
 FUNCS = [
     ("assignCrowdingDist", [("individuals", TL(IND))], {}, UNIT,
-     "model_assignCrowdingDist o v_individuals"),
+     "model_assignCrowdingDist o v_individuals", "c05", None),
     ("selNSGA2", [("individuals", TL(IND)), ("k", INT), ("nd", ND)], {"nd": "standard"}, TL(IND),
-     "model_selNSGA2 o p_sortNondominated p_sortLogNondominated v_individuals v_k v_nd"),
+     "model_selNSGA2 o p_sortNondominated p_sortLogNondominated v_individuals v_k v_nd", "c05", None),
+    ("sortNondominated", [("individuals", TL(IND)), ("k", INT), ("first_front_only", BOOL)], {"first_front_only": False},
+     TL(TL(IND)), "lift (C04_NDSort.sort_nd v_individuals v_k v_first_front_only)", "c04", "len(fits)"),
 ]
 # callables a translated function may call: name -> (argument types, result type, coq head, monadic?)
 PARAM_FUNCS = {"sortNondominated": SORTER, "sortLogNondominated": SORTER}
 ND_NAMES = {"standard": "NdStandard", "log": "NdLog"}
-EXPECTED = {"chain": ("from", "itertools", "chain"), "attrgetter": ("from", "operator", "attrgetter")}
+EXPECTED = {"chain": ("from", "itertools", "chain"), "attrgetter": ("from", "operator", "attrgetter"),
+            "defaultdict": ("from", "collections", "defaultdict")}
 # builtins the translation gives a fixed meaning to (a call of any other name is refused anyway)
-BUILTINS = ("len", "float", "sorted", "list", "range", "zip", "enumerate", "min", "max", "Exception", "IndexError",
+BUILTINS = ("len", "float", "sorted", "list", "int", "range", "zip", "enumerate", "min", "max", "Exception", "IndexError",
             "ValueError", "TypeError")
 EXC_NAMES = ("Exception", "IndexError", "ValueError", "TypeError")
 
@@ -142,15 +181,18 @@ def cn(name):
 class FnTr(object):
     """Translator of one function body."""
 
-    def __init__(self, fname, rettype, known, counter=None):
+    def __init__(self, fname, rettype, known, counter=None, rep="c05", fuel=None):
         self.fname, self.rettype, self.known = fname, rettype, known
+        self.rep, self.fuel = rep, fuel
+        self.pure_reads = set()             # defaultdicts that were read (a read inserts the key: keys() is refused after it)
         self.env = {}                       # python name -> Var, insertion ordered
         self.counter = counter if counter is not None else [0]
         self.in_loop = False
         self.cont = None
 
     def sub(self, in_loop=None):
-        t = FnTr(self.fname, self.rettype, self.known, self.counter)
+        t = FnTr(self.fname, self.rettype, self.known, self.counter, self.rep, self.fuel)
+        t.pure_reads = self.pure_reads
         t.env = dict((k, Var(v.t, v.mut)) for k, v in self.env.items())
         t.in_loop = self.in_loop if in_loop is None else in_loop
         t.cont = self.cont
@@ -255,6 +297,14 @@ class FnTr(object):
                 refuse(e, "tuple display")
             vs = [self.expr(x, binds) for x in e.elts]
             return "(%s)" % ", ".join(v for v, _ in vs), TT(*[t for _, t in vs])
+        if isinstance(e, ast.List):
+            if not isinstance(e.ctx, ast.Load):
+                refuse(e, "list display in store context")
+            if not e.elts:
+                return "[]", TL(None)
+            if len(e.elts) == 1 and isinstance(e.elts[0], ast.List) and not e.elts[0].elts:
+                return "[[]]", TL(TL(None))
+            refuse(e, "list display other than [] and [[]]")
         if isinstance(e, ast.ListComp):
             return self.comprehension(e, binds)
         if isinstance(e, ast.Call):
@@ -327,10 +377,16 @@ class FnTr(object):
         refuse(node, "comparison of %s with %s" % (tx, ty))
 
     def attribute(self, e, binds):
+        # x.fitness (the dictionary key of sortNondominated)
+        if e.attr == "fitness":
+            x, tx = self.expr(e.value, binds)
+            if tx != IND or self.rep != "c04":
+                refuse(e, ".fitness of a %s" % (tx,))
+            return "(C04_NDSort.iw %s)" % x, FIT
         # x.fitness.values / x.fitness.crowding_dist
         if isinstance(e.value, ast.Attribute) and e.value.attr == "fitness":
             x, tx = self.expr(e.value.value, binds)
-            if tx != IND:
+            if tx != IND or self.rep != "c05":
                 refuse(e, ".fitness of a %s" % (tx,))
             if e.attr == "values":
                 return "(vals %s)" % x, TL(V)
@@ -363,6 +419,13 @@ class FnTr(object):
             return "(sl %s %s %s)" % (base, bounds[0], bounds[1]), tb
         if isinstance(s, ast.Tuple):
             refuse(e, "multi-dimensional subscript")
+        if is_ddict(tb):
+            key, tk = self.expr(s, binds)
+            if tk != FIT:
+                refuse(e, "dictionary key of type %s" % (tk,))
+            if isinstance(e.value, ast.Name):
+                self.pure_reads.add(e.value.id)     # reading a defaultdict inserts the key: keys() is refused from here on
+            return "(C04_NDSort.kget %s %s %s)" % (base, key, self.ddefault(e, tb[1])), tb[1]
         if is_tup(tb):
             n = len(tb[1])
             j = None
@@ -384,6 +447,14 @@ class FnTr(object):
                 return self.effect(binds, "getitem_z %s %s" % (base, i)), tb[1]
             refuse(e, "subscript of type %s" % (ti,))
         refuse(e, "subscript of a %s" % (tb,))
+
+    @staticmethod
+    def ddefault(node, t):
+        if is_list(t):
+            return "[]"
+        if t == INT:
+            return "0%Z"
+        refuse(node, "defaultdict of %s" % (t,))
 
     # ---- iterables ---------------------------------------------------------------------------------------
     def iterable(self, it, binds, sources):
@@ -414,9 +485,13 @@ class FnTr(object):
                     TT(*[t for _, t in parts])
         if isinstance(it, ast.Name) and it.id in self.env and self.env[it.id].mut:
             sources.append(it.id)
+        if isinstance(it, ast.Subscript) and isinstance(it.value, ast.Name) and it.value.id in self.env and self.env[it.value.id].mut:
+            sources.append(it.value.id)         # a list held by a dictionary / list of lists this function mutates
         v, t = self.expr(it, binds, allow_mut=True)
-        if not is_list(t):
+        if not is_list(t) or t[1] is None:
             refuse(it, "iteration over a %s" % (t,))
+        if isinstance(it, ast.Name) and is_list(t[1]) and self.env[it.id].mut:
+            refuse(it, "iteration over a list of lists this function mutates")
         return v, t[1]
 
     def bind_target(self, target, item, t, lets):
@@ -518,8 +593,24 @@ class FnTr(object):
 
     def call(self, e, binds):
         f = e.func
+        if isinstance(f, ast.Attribute) and f.attr == "dominates":
+            # Fitness.dominates(other) (obj left at its default): property C01's subject, C04's nd_dom
+            self.plain_args(e, 1)
+            a, ta = self.expr(f.value, binds)
+            b, tb = self.expr(e.args[0], binds)
+            if ta != FIT or tb != FIT:
+                refuse(e, ".dominates on %s and %s" % (ta, tb))
+            return "(C04_NDSort.nd_dom %s %s)" % (a, b), BOOL
         if isinstance(f, ast.Name) and f.id not in self.env:
             name = f.id
+            if name == "defaultdict":
+                self.plain_args(e, 1)
+                a = e.args[0]
+                if isinstance(a, ast.Name) and a.id == "list" and "list" not in self.env:
+                    return "[]", TD(TL(None))
+                if isinstance(a, ast.Name) and a.id == "int" and "int" not in self.env:
+                    return "[]", TD(INT)
+                refuse(e, "defaultdict of something other than list / int")
             if name == "len":
                 self.plain_args(e, 1)
                 v, t = self.expr(e.args[0], binds, allow_mut=True)
@@ -554,6 +645,14 @@ class FnTr(object):
                     if not (is_list(t) and is_list(t[1])):
                         refuse(a, "chain(*x) with x of type %s" % (t,))
                     return "(concat %s)" % v, t[1]
+                if isinstance(a, ast.Call) and isinstance(a.func, ast.Attribute) and a.func.attr == "keys" \
+                        and isinstance(a.func.value, ast.Name) and not a.args and not a.keywords:
+                    d = a.func.value.id
+                    if d not in self.env or not is_ddict(self.env[d].t):
+                        refuse(a, ".keys() of something that is not a dictionary")
+                    if self.in_loop or d in self.pure_reads:
+                        refuse(a, "keys() of a defaultdict after it may have been read (a read inserts the key)")
+                    return "(C04_NDSort.kkeys %s)" % cn(d), TL(FIT)
                 v, t = self.expr(a, binds, allow_mut=True)
                 if not is_list(t):
                     refuse(e, "list() of a %s" % (t,))
@@ -576,7 +675,7 @@ class FnTr(object):
                     args.append(v)
                 return self.effect(binds, "lift (p_%s %s)" % (name, " ".join(args))), rt
             for fn in FUNCS:
-                if fn[0] == name and name in self.known and name != self.fname:
+                if fn[0] == name and name in self.known and name != self.fname and fn[5] == self.rep:
                     self.plain_args(e, len(fn[1]))
                     args = []
                     for a, (_, want) in zip(e.args, fn[1]):
@@ -604,7 +703,7 @@ class FnTr(object):
             return True
         if isinstance(e, ast.Subscript) and isinstance(e.slice, ast.Slice):
             return True
-        if isinstance(e, ast.Call) and isinstance(e.func, ast.Name) and e.func.id in ("list", "sorted"):
+        if isinstance(e, ast.Call) and isinstance(e.func, ast.Name) and e.func.id in ("list", "sorted", "defaultdict"):
             return True
         return False
 
@@ -657,9 +756,12 @@ class FnTr(object):
                     add(v)
             elif isinstance(s, ast.Expr):
                 c = s.value
-                if isinstance(c, ast.Call) and isinstance(c.func, ast.Attribute) and isinstance(c.func.value, ast.Name) \
-                        and c.func.attr in ("sort", "append", "extend"):
-                    add(c.func.value.id)
+                if isinstance(c, ast.Call) and isinstance(c.func, ast.Attribute) and c.func.attr in ("sort", "append", "extend"):
+                    b = c.func.value
+                    if isinstance(b, ast.Subscript):
+                        b = b.value
+                    if isinstance(b, ast.Name):
+                        add(b.id)
             elif isinstance(s, (ast.Pass, ast.Return, ast.Raise, ast.Continue)):
                 pass
             else:
@@ -668,8 +770,16 @@ class FnTr(object):
 
     def mutable_list(self, node, name):
         if name not in self.env or not self.env[name].mut:
-            refuse(node, "%s is not a list this function created (it may be shared)" % name)
+            refuse(node, "%s is not a list / dictionary this function created (it may be shared)" % name)
         return self.env[name]
+
+    def refine(self, node, name, t):
+        """the type of `name` becomes the unifier of its type and t (an empty list display learns its element type)"""
+        try:
+            self.env[name].t = unify(self.env[name].t, t)
+        except ValueError:
+            refuse(node, "%s of type %s used as %s" % (name, self.env[name].t, t))
+        return self.env[name].t
 
     def assign(self, s):
         """Assign / AugAssign -> list of binds; updates env"""
@@ -687,6 +797,17 @@ class FnTr(object):
                     refuse(s, "augmented assignment target")
                 var = self.mutable_list(t, t.value.id)
                 l = cn(t.value.id)
+                if is_ddict(var.t):
+                    # d[key] op= e on a defaultdict: the old value (default when absent) first, then e, then the store
+                    key, tk = self.expr(t.slice, binds)
+                    if tk != FIT:
+                        refuse(s, "dictionary key of type %s" % (tk,))
+                    old = "(C04_NDSort.kget %s %s %s)" % (l, key, self.ddefault(s, var.t[1]))
+                    new = self.arith(s, s.op, (old, var.t[1]), self.expr(s.value, binds))
+                    if new[1] != var.t[1]:
+                        refuse(s, "value of type %s stored into a dictionary of %s" % (new[1], var.t[1]))
+                    binds.append(("let", l, "(C04_NDSort.kset %s %s %s)" % (l, key, new[0])))
+                    return binds
                 i = self.nat(t.slice, binds)
                 old = self.effect(binds, "getitem %s %s" % (l, i))
                 new = self.arith(s, s.op, (old, var.t[1]), self.expr(s.value, binds))
@@ -716,7 +837,13 @@ class FnTr(object):
             return binds
         v, vt = self.expr(s.value, binds)
         if isinstance(t, ast.Name):
-            self.define(s, t.id, vt, is_list(vt) and self.is_fresh(s.value))
+            sv = s.value
+            if isinstance(sv, ast.Subscript) and not isinstance(sv.slice, ast.Slice) and isinstance(sv.value, ast.Name) \
+                    and sv.value.id in self.env and self.env[sv.value.id].mut and (is_list(vt) or is_ddict(vt)):
+                refuse(s, "a second reference to a list held by the mutable %s" % sv.value.id)
+            if is_ddict(vt) and not self.is_fresh(sv):
+                refuse(s, "a second reference to a dictionary")
+            self.define(s, t.id, vt, (is_list(vt) or is_ddict(vt)) and self.is_fresh(sv))
             binds.append(("let", cn(t.id), v))
             return binds
         if isinstance(t, ast.Subscript):
@@ -727,8 +854,8 @@ class FnTr(object):
             if self.neg_literal(t.slice) is not None:
                 refuse(t, "item assignment at a negative index")
             i = self.nat(t.slice, binds)
-            if vt != var.t[1]:
-                refuse(s, "item of type %s stored into a list of %s" % (vt, var.t[1]))
+            if not is_list(var.t) or vt != var.t[1] or is_list(vt):
+                refuse(s, "item of type %s stored into %s" % (vt, var.t))
             binds.append(("bind", l, "setitem %s %s %s" % (l, i, v)))
             return binds
         if isinstance(t, ast.Attribute):
@@ -742,14 +869,52 @@ class FnTr(object):
         refuse(t, "assignment target")
 
     def method_stmt(self, s, c):
-        """l.sort(...) / l.append(e) / l.extend(e) on a list this function created"""
+        """l.sort(...) / l.append(e) / l.extend(e) on a list this function created; d[key].append(e) on a
+        defaultdict(list) it created; l[-1].append(e) / l[-1].extend(e) on a list of lists it created"""
         f = c.func
+        binds = []
+        if isinstance(f.value, ast.Subscript) and isinstance(f.value.value, ast.Name) and f.attr in ("append", "extend"):
+            name = f.value.value.id
+            var = self.mutable_list(s, name)
+            l = cn(name)
+            self.plain_args(c, 1)
+            if any(isinstance(n, ast.Name) and n.id == name for n in ast.walk(c.args[0])):
+                refuse(s, "%s is modified with a value computed from itself" % name)
+            if is_ddict(var.t) and is_list(var.t[1]):
+                key, tk = self.expr(f.value.slice, binds)
+                if tk != FIT:
+                    refuse(s, "dictionary key of type %s" % (tk,))
+                old = "(C04_NDSort.kget %s %s [])" % (l, key)
+                inner = var.t[1]
+                setter = lambda new: ("let", l, "(C04_NDSort.kset %s %s %s)" % (l, key, new))
+            elif is_list(var.t) and is_list(var.t[1]) and self.neg_literal(f.value.slice) is not None:
+                j = self.neg_literal(f.value.slice)
+                old = self.effect(binds, "getitem_last %s %d" % (l, j))
+                inner = var.t[1]
+                setter = lambda new: ("bind", l, "setitem_last %s %d %s" % (l, j, new))
+            else:
+                refuse(s, "method call on an item of %s" % name)
+            if f.attr == "append":
+                v, t = self.expr(c.args[0], binds)
+                if is_list(t) or is_ddict(t) or not same_type(TL(t), inner):
+                    refuse(s, "append of a %s to a list of %s" % (t, inner[1]))
+                inner = unify(inner, TL(t))
+                binds.append(setter("(%s ++ [%s])" % (old, v)))
+            else:
+                v, t = self.expr(c.args[0], binds, allow_mut=True)
+                if not is_list(t) or is_list(t[1]) or not same_type(t, inner):
+                    refuse(s, "extend of a list of %s by a %s" % (inner[1], t))
+                inner = unify(inner, t)
+                binds.append(setter("(%s ++ %s)" % (old, v)))
+            self.refine(s, name, (var.t[0], inner))
+            return binds
         if not isinstance(f.value, ast.Name):
             refuse(s, "method call on something that is not a local")
         name = f.value.id
         var = self.mutable_list(s, name)
+        if not is_list(var.t):
+            refuse(s, "method .%s of a %s" % (f.attr, var.t))
         l = cn(name)
-        binds = []
         if f.attr == "sort":
             if c.args:
                 refuse(s, "sort with positional arguments")
@@ -758,18 +923,22 @@ class FnTr(object):
             return binds
         if f.attr == "append":
             self.plain_args(c, 1)
+            if any(isinstance(n, ast.Name) and n.id == name for n in ast.walk(c.args[0])):
+                refuse(s, "%s is modified with a value computed from itself" % name)
             v, t = self.expr(c.args[0], binds)
-            if t != var.t[1]:
+            if is_ddict(t) or (is_list(t) and not self.is_fresh(c.args[0])) or not same_type(TL(t), var.t):
                 refuse(s, "append of a %s to a list of %s" % (t, var.t[1]))
+            self.refine(s, name, TL(t))
             binds.append(("let", l, "(%s ++ [%s])" % (l, v)))
             return binds
         if f.attr == "extend":
             self.plain_args(c, 1)
-            if isinstance(c.args[0], ast.Name) and c.args[0].id == name:
+            if any(isinstance(n, ast.Name) and n.id == name for n in ast.walk(c.args[0])):
                 refuse(s, "a list extended by itself")
             v, t = self.expr(c.args[0], binds, allow_mut=True)
-            if t != var.t:
+            if not is_list(t) or is_list(t[1]) or not same_type(t, var.t):
                 refuse(s, "extend of a %s by a %s" % (var.t, t))
+            self.refine(s, name, t)
             binds.append(("let", l, "(%s ++ %s)" % (l, v)))
             return binds
         refuse(s, "method .%s" % f.attr)
@@ -805,7 +974,7 @@ class FnTr(object):
                 return pad(ind) + "ret tt"
             binds = []
             v, t = self.expr(s.value, binds, allow_mut=True)
-            if t != self.rettype:
+            if not same_type(t, self.rettype):
                 refuse(s, "return of a %s, expected %s" % (t, self.rettype))
             return emit(binds, pad(ind) + "ret %s" % v, ind)
         if isinstance(s, ast.Continue):
@@ -829,6 +998,12 @@ class FnTr(object):
             if not (isinstance(x, ast.Name) and x.id in EXC_NAMES and x.id not in self.env):
                 refuse(s, "exception type")
             return pad(ind) + "raise"
+        if isinstance(s, ast.Assign) and self.is_move(s, rest):
+            # a = b ; b = <fresh list>: the list moves from b to a, no second reference survives the pair
+            src, dst = s.value.id, s.targets[0].id
+            var = self.env[src]
+            self.define(s, dst, var.t, True)
+            return emit([("let", cn(dst), cn(src))], self.block(rest, fall, ind), ind)
         if isinstance(s, (ast.Assign, ast.AugAssign)):
             b = self.assign(s)
             return emit(b, self.block(rest, fall, ind), ind)
@@ -836,7 +1011,20 @@ class FnTr(object):
             return self.if_stmt(s, rest, fall, ind)
         if isinstance(s, ast.For):
             return self.for_stmt(s, rest, fall, ind)
+        if isinstance(s, ast.While):
+            return self.while_stmt(s, rest, fall, ind)
         refuse(s, "statement outside the grammar")
+
+    def is_move(self, s, rest):
+        if not (len(s.targets) == 1 and isinstance(s.targets[0], ast.Name) and isinstance(s.value, ast.Name)):
+            return False
+        src, dst = s.value.id, s.targets[0].id
+        if src == dst or src not in self.env or not self.env[src].mut or not is_list(self.env[src].t) or not rest:
+            return False
+        n = rest[0]
+        return (isinstance(n, ast.Assign) and len(n.targets) == 1 and isinstance(n.targets[0], ast.Name)
+                and n.targets[0].id == src and self.is_fresh(n.value)
+                and not any(isinstance(x, ast.Name) and x.id in (src, dst) for x in ast.walk(n.value)))
 
     def harmless_message(self, a):
         """argument of an exception constructor: a string literal, possibly .format()ed with plain locals"""
@@ -857,10 +1045,13 @@ class FnTr(object):
             else [("let", cn(names[0]), src)]
 
     def check_same(self, node, names, snapshot, tr):
+        """a loop-carried / joined variable keeps its type (an empty list display may learn its element type: the
+        snapshot is refined) and its sharing status"""
         for n in names:
             v = tr.env.get(n)
-            if v is None or (v.t, v.mut) != snapshot[n]:
+            if v is None or v.mut != snapshot[n][1] or not same_type(v.t, snapshot[n][0]):
                 refuse(node, "variable %s changes type or sharing along the way" % n)
+            snapshot[n] = (unify(v.t, snapshot[n][0]), v.mut)
 
     def if_stmt(self, s, rest, fall, ind):
         binds = []
@@ -890,10 +1081,16 @@ class FnTr(object):
         tb_ = b.block(list(s.orelse), out, ind + 1)
         vs = [v for v in self.env if v in cand] + [v for v in cand if v not in self.env and all(v in e for e in envs)]
         for v in vs:
-            kinds = set((e[v].t, e[v].mut) for e in envs)
-            if len(kinds) != 1 or (v in self.env and (self.env[v].t, self.env[v].mut) not in kinds):
+            cands = [(e[v].t, e[v].mut) for e in envs] + ([(self.env[v].t, self.env[v].mut)] if v in self.env else [])
+            try:
+                t = cands[0][0]
+                for c2 in cands[1:]:
+                    t = unify(t, c2[0])
+            except ValueError:
+                t = None
+            if t is None or len(set(m for _, m in cands)) != 1:
                 refuse(s, "variable %s has different types or sharing on the paths through the statement" % v)
-            self.env[v] = Var(*list(kinds)[0])
+            self.env[v] = Var(t, cands[0][1])
         st = self.temp("st")
         txt = pad(ind) + "%s <- (if %s then (\n%s\n%s) else (\n%s\n%s)) ;;\n" % (st, c, ta, pad(ind), tb_, pad(ind))
         txt = txt.replace("@@JOIN@@", "ret %s" % self.state(vs))
@@ -934,11 +1131,58 @@ class FnTr(object):
         txt = pad(ind) + "%s <- for_list %s (fun %s %s =>\n%s)\n%s  %s ;;\n" % (
             st2, xs, item, st if carried else "_", btxt, pad(ind), self.state(carried))
         after = self.unpack(carried, st2) if carried else []
+        for v in carried:
+            self.env[v].t = snap[v][0]
         return emit(binds, txt + emit(after, self.block(rest, fall, ind), ind), ind)
+
+    def while_stmt(self, s, rest, fall, ind):
+        if s.orelse:
+            refuse(s, "while ... else")
+        for n in ast.walk(s):
+            if isinstance(n, (ast.Break, ast.Continue)):
+                refuse(n, "break / continue in a while loop")
+        if self.fuel is None:
+            refuse(s, "while loop in a function the signature table gives no fuel for")
+        fb = []
+        try:
+            fuel = self.nat(ast.parse(self.fuel, mode="eval").body, fb)
+        except Refuse as r:
+            refuse(s, "the fuel expression %s of the signature table cannot be evaluated here (%s)" % (self.fuel, r.why))
+        if fb:
+            refuse(s, "the fuel expression has effects")
+        carried_all = self.assigned(s.body)
+        carried = [v for v in self.env if v in carried_all]
+        snap = {v: (self.env[v].t, self.env[v].mut) for v in carried}
+        st = self.temp("st")
+        cond = self.sub(in_loop=True)
+        cb = []
+        c, tc = cond.expr(s.test, cb)
+        if cb or tc != BOOL:
+            refuse(s.test, "loop condition with effects / of type %s" % (tc,))
+        lets = self.unpack(carried, st) if carried else []
+        ctxt = "".join("let %s := %s in " % (n, x) for _, n, x in lets) + c
+        body = self.sub(in_loop=True)
+
+        def again(tr):
+            self.check_same(s, carried, snap, tr)
+            return "ret %s" % tr.state(carried)
+        body.cont = again
+        btxt = emit(lets, body.block(list(s.body), again, ind + 2), ind + 2)
+        st2 = self.temp("st")
+        txt = pad(ind) + "%s <- while_fuel %s (fun %s => %s) (fun %s =>\n%s)\n%s  %s ;;\n" % (
+            st2, fuel, st if carried else "_", ctxt, st if carried else "_", btxt, pad(ind), self.state(carried))
+        after = self.unpack(carried, st2) if carried else []
+        for v in carried:
+            self.env[v].t = snap[v][0]
+        return emit(binds_none(), txt + emit(after, self.block(rest, fall, ind), ind), ind)
 
 
 def pad(ind):
     return "  " * ind
+
+
+def binds_none():
+    return []
 
 
 def emit(binds, tail, ind):
@@ -1018,13 +1262,13 @@ def check_function(fn, params, defaults, known):
             refuse(n, "parameter %s shadows a name of fixed meaning" % n.arg)
 
 
-def signature(params):
-    return " ".join("(%s : %s)" % (cn(p), coqtype(t)) for p, t in params)
+def signature(params, rep="c05"):
+    return " ".join("(%s : %s)" % (cn(p), coqtype(t, rep)) for p, t in params)
 
 
-def translate_function(fn, name, params, defaults, rettype, known):
+def translate_function(fn, name, params, defaults, rettype, known, rep="c05", fuel=None):
     check_function(fn, params, defaults, known)
-    tr = FnTr(name, rettype, known)
+    tr = FnTr(name, rettype, known, None, rep, fuel)
     for p, t in params:
         tr.env[p] = Var(t, False)
 
@@ -1033,12 +1277,13 @@ def translate_function(fn, name, params, defaults, rettype, known):
             refuse(fn, "control reaches the end of the function without return")
         return "ret tt"
     body = tr.block(list(fn.body), end, 2)
-    return "  Definition gen_%s %s : M o (%s) :=\n%s.\n" % (name, signature(params), coqtype(rettype), body)
+    return "  Definition gen_%s %s : M o (%s) :=\n%s.\n" % (name, signature(params, rep), coqtype(rettype, rep), body)
 
 
 HEADER = """(* GENERATED by harness/c05_py2coq.py from %s -- do not edit, never committed *)
 From Coq Require Import List Bool Arith ZArith.
 From DV Require Import Base.PyList Base.C05_Sort Model.C05_Nsga2 Model.C05_Full Model.C05_GenRt.
+From DV Require Model.C04_NDSort.
 Import ListNotations.
 Local Open Scope nat_scope.
 Local Open Scope c05m_scope.
@@ -1066,24 +1311,24 @@ def translate_source(src, origin="deap/tools/emo.py"):
         defs = {w: r for w in known}
     out = HEADER % origin
     status = {}
-    for name, params, defaults, rettype, model in FUNCS:
+    for name, params, defaults, rettype, model, indrep, fuel in FUNCS:
         try:
             if isinstance(defs[name], Refuse):
                 raise defs[name]
             for other in known:
                 if isinstance(defs[other], Refuse) and any(isinstance(n, ast.Name) and n.id == other for n in ast.walk(defs[name])):
                     raise defs[other]
-            text = translate_function(defs[name], name, params, defaults, rettype, known)
+            text = translate_function(defs[name], name, params, defaults, rettype, known, indrep, fuel)
             status[name] = None
         except Refuse as r:
             status[name] = r
             text = "  (* REFUSED %s: %s -- placeholder: the hand model, tied by the correspondence only *)\n" \
                    "  Definition gen_%s %s : M o (%s) :=\n    %s.\n" % (
-                       name, str(r).replace("*)", "* )").replace("(*", "( *"), name, signature(params), coqtype(rettype), model)
+                       name, str(r).replace("*)", "* )").replace("(*", "( *"), name, signature(params, indrep), coqtype(rettype, indrep), model)
         except Exception as e:  # noqa  (a translator crash on an unforeseen construct is a refusal: fail closed)
             status[name] = Refuse("FunctionDef", "translator error %s: %s" % (type(e).__name__, e))
             text = "  (* REFUSED %s: translator error -- placeholder: the hand model *)\n" \
-                   "  Definition gen_%s %s : M o (%s) :=\n    %s.\n" % (name, name, signature(params), coqtype(rettype), model)
+                   "  Definition gen_%s %s : M o (%s) :=\n    %s.\n" % (name, name, signature(params, indrep), coqtype(rettype, indrep), model)
         out += text + "\n"
     out += "End Gen.\n" + TRAILER
     return out, status
